@@ -15,9 +15,9 @@
    bitstring_constants_lost_on_reparse, and named numbers of an INTEGER below default(..), F08-21
    default_integer_constants_lost_on_reparse -- into_asn looks through optional(..) only (Type::no_optional_mut));
    both witnessed by C08_refuted_consts_dropped.
-   Named numbers of an OPTIONAL component never reach the Rust model at all (to_rust_constants sees Type::Optional): that
-   is outside C08's statement -- the generator's starting model R1 already lacks them, and named numbers are not
-   constraints -- so there is no class for it. *)
+   Named numbers of an OPTIONAL component (and, on the re-parse side, of an extension addition, which to_rust wraps in
+   Option) used to be dropped by Context::to_rust_constants, which saw Type::Optional: repaired by /repo e572296 (the
+   Optional arm recurses).  Pinned positively as C08_optional_constants_kept; Default(..) still answers none (F08-21). *)
 From A1 Require Front.IntTy.
 From A1 Require Import Base.Res Gen.Keywords Front.Codegen Front.Attr Front.AttrItem Front.CodegenProofs Front.AttrItemProofs Front.Descr Front.DescrProofs.
 From Coq Require Import String.
@@ -122,6 +122,22 @@ Theorem C08_into_asn_keeps : forall t a,
   (forall n g, t = ARef n g -> a_consts a = []) ->
   into_asn (match t with ARef n _ => n | _ => [] end) a = Some (a_tag a, t, a_consts a).
 Proof. exact into_asn_keeps. Qed.
+
+(* since /repo e572296 (S ::= SEQUENCE { a BOOLEAN, ..., b INTEGER { x(1) } (0..9) } and g INTEGER { c(3) } (0..9) OPTIONAL):
+   the constants printed next to integer(..) or optional(integer(..)) survive print -> parse -> into_asn -> to_rust_constants *)
+Theorem C08_optional_constants_kept : forall a t fuel,
+  a_primary a = PType t -> wf_attr CTransparent a -> (attr_depth a < fuel)%nat -> is_integer (no_optional t) = true ->
+  exists a', parse_attr CTransparent fuel (print_attr a) = Ok a' /\
+             into_asn [] a' = Some (a_tag a, t, a_consts a) /\
+             field_rust_constants t (a_consts a) = a_consts a.
+Proof. exact optional_constants_kept. Qed.
+
+(* ... but not below default(..), and never for a transparent definition whose type is not the INTEGER itself *)
+Example C08_constants_not_kept :
+  field_rust_constants (ADef (AInt (Some 0%Z) (Some 9%Z) false) (LInt 1%Z)) [(codes "A", 1%Z)] = [] /\
+  tuple_rust_constants (AOpt (AInt None None false)) [(codes "A", 1%Z)] = [] /\
+  field_rust_constants (AOpt (AOpt (AInt None None false))) [(codes "A", 1%Z)] = [(codes "A", 1%Z)].
+Proof. repeat split; reflexivity. Qed.
 
 Theorem C08_refuted_consts_dropped :
   let bits := mk_attr (PType (ABits (SFix 16 false))) None [(codes "FIRST", 0%Z)] None in
@@ -237,6 +253,7 @@ Print Assumptions C08_ext_index_struct.
 Print Assumptions C08_ext_index_enum.
 Print Assumptions C08_refuted_ext_escaped.
 Print Assumptions C08_into_asn_keeps.
+Print Assumptions C08_optional_constants_kept.
 Print Assumptions C08_refuted_consts_dropped.
 Print Assumptions C08_reparse_type_in_context.
 Print Assumptions C08_refuted_half_open_range.
